@@ -212,6 +212,11 @@ def check(R, F, P, cfg):
             continue
         seq = []
         for (n, lab) in p:
+            # a block's statements run before its terminator
+            for s in n.stmts:
+                if s["k"] == "assign" and any(isinstance(e, dict) and e.get("n") == "bytes_threshold" for e in s["place"]["p"]):
+                    v = S.resolve_rv(n.ctx, s["rv"], None)
+                    seq.append(("write", _rhs_kind(v)))
             if n.kind == "switch" and isinstance(lab, tuple):
                 e = S.switch_expr(n)
                 if isinstance(e, tuple) and e and e[0] == "const":
@@ -226,10 +231,6 @@ def check(R, F, P, cfg):
                     else:
                         r = rel(a, t) if t in (True, False) else None
                         seq.append(("lit", r) if r else ("?", tables.fmt_atom(a) + "=" + str(t)))
-            for s in n.stmts:
-                if s["k"] == "assign" and any(isinstance(e, dict) and e.get("n") == "bytes_threshold" for e in s["place"]["p"]):
-                    v = S.resolve_rv(n.ctx, s["rv"], None)
-                    seq.append(("write", _rhs_kind(v)))
         err = run_automaton(seq)
         shapes.add(tuple(seq))
         if err:
